@@ -98,7 +98,10 @@ var (
 	aVals = []int64{-3, 0, 1, 2, 2, 5, 10, 100}
 	sVals = []string{"", "NULL", "a", "a+", "+b", "b", "a,b", "x+y", "null", "1", "A", "a"}
 	dVals = []string{"0.00", "1.50", "-2.25", "10.00", "1.05", "99.99", "0.10", "1.50"}
-	fVals = []float64{0, 0.5, -1.25, 2.5, 1e10, 0.1, 3, 0.5}
+	// doubles are dyadic rationals of moderate size: every sum of up to a few
+	// hundred of them is exact, so the order of additions (per shard, then
+	// merged) cannot produce rounding noise that would perturb ORDER BY SUM(f)
+	fVals = []float64{0, 0.5, -1.25, 2.5, 1e10, 0.125, 3, 0.5}
 )
 
 // GenData draws the table contents. maxRows bounds the rows of t.
